@@ -2015,25 +2015,6 @@ impl Server {
     }
 
     pub fn notify_proxys(&mut self, request: WorkerRequest) {
-        // Whether a RemoveListener names a listener this worker was told about:
-        // must be read before the state dispatch below forgets it.
-        let removes_known_listener = match &request.content.request_type {
-            Some(RequestType::RemoveListener(remove)) => {
-                let address: std::net::SocketAddr = remove.address.into();
-                match ListenerType::try_from(remove.proxy) {
-                    Ok(ListenerType::Http) => {
-                        self.config_state.http_listeners.contains_key(&address)
-                    }
-                    Ok(ListenerType::Https) => {
-                        self.config_state.https_listeners.contains_key(&address)
-                    }
-                    Ok(ListenerType::Tcp) => self.config_state.tcp_listeners.contains_key(&address),
-                    Ok(ListenerType::Udp) => self.config_state.udp_listeners.contains_key(&address),
-                    Err(_) => false,
-                }
-            }
-            _ => false,
-        };
         if let Err(e) = self.config_state.dispatch(&request.content) {
             error!("Could not execute order on config state: {}", e);
         }
@@ -2155,17 +2136,30 @@ impl Server {
             }
             Some(RequestType::RemoveListener(ref remove)) => {
                 debug!("{} remove {:?} listener {:?}", req_id, remove.proxy, remove);
-                // Only a listener that was previously added took a slot in the
-                // base count. A RemoveListener for an address that has none
-                // (never added, or removed already) must leave it alone:
+                // A listener takes one slab slot (and one unit of the base
+                // count) from its Add*Listener until the proxy frees it here.
+                // The base count follows the slab: a RemoveListener for an
+                // address that has no listener (never added, add refused, or
+                // removed already) frees nothing and must leave it alone --
                 // SoftStop's exit test compares the slab against this count.
-                if removes_known_listener {
-                    debug_assert!(
-                        self.base_sessions_count > 0,
-                        "removing a listener with base_sessions_count == 0 would underflow"
-                    );
-                    self.base_sessions_count = self.base_sessions_count.saturating_sub(1);
-                }
+                let listen_entries = |server: &Server| {
+                    server
+                        .sessions
+                        .borrow()
+                        .slab
+                        .iter()
+                        .filter(|(_, s)| {
+                            matches!(
+                                s.borrow().protocol(),
+                                Protocol::HTTPListen
+                                    | Protocol::HTTPSListen
+                                    | Protocol::TCPListen
+                                    | Protocol::UDPListen
+                            )
+                        })
+                        .count()
+                };
+                let listen_entries_before = listen_entries(self);
                 let response = match ListenerType::try_from(remove.proxy) {
                     Ok(ListenerType::Http) => self.http.borrow_mut().notify(request),
                     Ok(ListenerType::Https) => self.https.borrow_mut().notify(request),
@@ -2173,6 +2167,16 @@ impl Server {
                     Ok(ListenerType::Udp) => self.udp.borrow_mut().notify(request),
                     Err(_) => WorkerResponse::error(req_id, "Wrong variant ListenerType"),
                 };
+                // one address, one listener (a UDP listener's flows hold slots of
+                // their own, outside the base count)
+                let freed = listen_entries_before
+                    .saturating_sub(listen_entries(self))
+                    .min(1);
+                debug_assert!(
+                    self.base_sessions_count >= freed,
+                    "removing a listener must not lower base_sessions_count below zero"
+                );
+                self.base_sessions_count = self.base_sessions_count.saturating_sub(freed);
                 push_queue(response);
             }
             Some(RequestType::ActivateListener(ref activate)) => {
@@ -2606,7 +2610,7 @@ impl Server {
 
         match ListenerType::try_from(deactivate.proxy) {
             Ok(ListenerType::Http) => {
-                let (token, mut listener) = match self.http.borrow_mut().give_back_listener(address)
+                let (_token, mut listener) = match self.http.borrow_mut().give_back_listener(address)
                 {
                     Ok((token, listener)) => (token, listener),
                     Err(e) => {
@@ -2626,13 +2630,10 @@ impl Server {
                     );
                 }
 
-                {
-                    let mut sessions = self.sessions.borrow_mut();
-                    if sessions.slab.contains(token.0) {
-                        sessions.slab.remove(token.0);
-                        info!("removed listen token {:?}", token);
-                    }
-                }
+                // The listen token's slab entry stays while the listener exists
+                // (as in `return_listen_sockets`): it reserves the token for a
+                // later ActivateListener, and `base_sessions_count` keeps
+                // counting it. RemoveListener frees it.
 
                 if deactivate.to_scm {
                     self.unblock_scm_socket();
@@ -2652,7 +2653,7 @@ impl Server {
                 WorkerResponse::ok(req_id)
             }
             Ok(ListenerType::Https) => {
-                let (token, mut listener) = match self
+                let (_token, mut listener) = match self
                     .https
                     .borrow_mut()
                     .give_back_listener(address)
@@ -2673,10 +2674,10 @@ impl Server {
                         deactivate, e
                     );
                 }
-                if self.sessions.borrow().slab.contains(token.0) {
-                    self.sessions.borrow_mut().slab.remove(token.0);
-                    info!("removed listen token {:?}", token);
-                }
+                // The listen token's slab entry stays while the listener exists
+                // (as in `return_listen_sockets`): it reserves the token for a
+                // later ActivateListener, and `base_sessions_count` keeps
+                // counting it. RemoveListener frees it.
 
                 if deactivate.to_scm {
                     self.unblock_scm_socket();
@@ -2696,7 +2697,7 @@ impl Server {
                 WorkerResponse::ok(req_id)
             }
             Ok(ListenerType::Tcp) => {
-                let (token, mut listener) = match self.tcp.borrow_mut().give_back_listener(address)
+                let (_token, mut listener) = match self.tcp.borrow_mut().give_back_listener(address)
                 {
                     Ok((token, listener)) => (token, listener),
                     Err(e) => {
@@ -2715,10 +2716,10 @@ impl Server {
                         deactivate, e
                     );
                 }
-                if self.sessions.borrow().slab.contains(token.0) {
-                    self.sessions.borrow_mut().slab.remove(token.0);
-                    info!("removed listen token {:?}", token);
-                }
+                // The listen token's slab entry stays while the listener exists
+                // (as in `return_listen_sockets`): it reserves the token for a
+                // later ActivateListener, and `base_sessions_count` keeps
+                // counting it. RemoveListener frees it.
 
                 if deactivate.to_scm {
                     self.unblock_scm_socket();
@@ -2757,9 +2758,16 @@ impl Server {
                         deactivate, e
                     );
                 }
-                if self.sessions.borrow().slab.contains(token.0) {
-                    self.sessions.borrow_mut().slab.remove(token.0);
-                    info!("removed listen token {:?}", token);
+                // The listen token's slab entry stays while the listener exists
+                // (see the HTTP arm); the flows' session is replaced by the
+                // placeholder that ActivateListener expects to find.
+                {
+                    let mut sessions = self.sessions.borrow_mut();
+                    if sessions.slab.contains(token.0) {
+                        sessions.slab[token.0] = Rc::new(RefCell::new(ListenSession {
+                            protocol: Protocol::UDPListen,
+                        }));
+                    }
                 }
 
                 if deactivate.to_scm {
